@@ -548,7 +548,7 @@ class RoundTrip(Family):
             for dv in self.dvs:
                 for cv in self.cvs:
                     yield [dv, cv, r]
-        n = 420 if tier == "quick" else 6000
+        n = 300 if tier == "quick" else 6000
         for t in range(n):
             r = gen_recipe(rng, small=(t % 3 == 0))
             if tier == "quick" and t % 5 != 0:
@@ -605,8 +605,7 @@ class RoundTrip(Family):
 
     def signature(self, case, po, res):
         dv, cv, r = case
-        return {"dv": dv, "cv": cv, "derived": any(d[2] for d in r[0]), "joins": bool(r[3]),
-                "multi_join": any(len(j[1]) > 1 for j in r[3])}
+        return {"dv": dv, "cv": cv}
 
     def shrink(self, case):
         dv, cv, (datas, sels, links, joins, sgc) = case
